@@ -1,0 +1,37 @@
+//go:build verif
+
+// Contracts for the deductive verifier in /verif (comment-only file; compiled only with -tags verif).
+package afpacket
+
+// The socket wrapper adds nothing of its own: every frame handed to it is handed to the kernel socket once and
+// unchanged (C07 C05 C01), every frame read is what the socket returned (C20 C06), the socket is bound to the
+// interface asked for (C17) and the capture filter installed is the compilation of the given text for the link
+// type of the mode (C03), instruction by instruction.
+//@ func (*Source).WritePacketData
+//@   props C07 C05 C01
+//@   observe WritePacketData
+//@   entry row write: [call WritePacketData(s.handle, pkt) as (e)] when ret == e -> exit
+
+//@ func (*Source).ReadPacketData
+//@   props C20 C06 C03
+//@   observe ZeroCopyReadPacketData
+//@   entry row read: [call ZeroCopyReadPacketData(s.handle) as (d, ci, e)] when ret0 == d && ret2 == e && ret1 != nil -> exit
+
+//@ func NewPacketSource
+//@   props C17 C03
+//@   observe NewTPacket
+//@   entry row fail: [call NewTPacket(bind_o) as (h, e)] when e != nil && ret0 == nil && ret1 == e
+//@                      && len(o) == 2 && istype(o[1], afp.OptInterface) && astype(o[1], afp.OptInterface) == iface -> exit
+//@   entry row open: [call NewTPacket(bind_o) as (h, e)] when e == nil && ret1 == nil && ret0 != nil && ret0.handle == h
+//@                      && len(o) == 2 && istype(o[1], afp.OptInterface) && astype(o[1], afp.OptInterface) == iface
+//@                      && ((vpnMode && ret0.linkType == layers.LinkTypeIPv4) || (!vpnMode && ret0.linkType == layers.LinkTypeEthernet)) -> exit
+
+//@ func (*Source).SetBPFFilter
+//@   props C03
+//@   observe pcap.CompileBPFFilter, SetBPF
+//@   entry row bad:  [call pcap.CompileBPFFilter(s.linkType, maxPacketLength, bpfFilter) as (ins, e)] when e != nil && ret == e -> exit
+//@   entry row good: [call pcap.CompileBPFFilter(s.linkType, maxPacketLength, bpfFilter) as (ins, e)] when e == nil && len(bpfIns) == 0 -> loop 0
+//@   loop 0 row conv: [] when len(bpfIns) == len(pre(bpfIns)) + 1
+//@                      && bpfIns[len(pre(bpfIns))].Op == ins.Code && bpfIns[len(pre(bpfIns))].Jt == ins.Jt && bpfIns[len(pre(bpfIns))].Jf == ins.Jf && bpfIns[len(pre(bpfIns))].K == ins.K
+//@                      && (forall k int :: 0 <= k && k < len(pre(bpfIns)) ==> bpfIns[k].Op == pre(bpfIns[k].Op) && bpfIns[k].Jt == pre(bpfIns[k].Jt) && bpfIns[k].Jf == pre(bpfIns[k].Jf) && bpfIns[k].K == pre(bpfIns[k].K)) -> continue
+//@   loop 0 row set:  [call SetBPF(s.handle, bind_raw) as (e2)] when ret == e2 && len(raw) == len(bpfIns) && (forall k int :: 0 <= k && k < len(raw) ==> raw[k].Op == bpfIns[k].Op && raw[k].K == bpfIns[k].K) -> exit
